@@ -1222,7 +1222,11 @@ func (r *verifC15Run) checkSnap(ref *verifC15Ref, s *verifC15Snap) {
 	if s.State == invpkg.ContractSettled && !isAMP && !unknown {
 		r.vc.Count("oracle_amtpaid_evals", 1)
 		if s.AmtPaid != settledSum {
-			r.violation("amtpaid_exact", fmt.Sprintf("diff=%d", int64(s.AmtPaid)-int64(settledSum)),
+			sign := "recorded>settled-sum"
+			if s.AmtPaid < settledSum {
+				sign = "recorded<settled-sum"
+			}
+			r.violation("amtpaid_exact", sign,
 				fmt.Sprintf("settled invoice %s records AmtPaid=%d but its settled htlcs (harness log amounts) sum to %d", ref.id, s.AmtPaid, settledSum))
 		}
 	}
@@ -1323,6 +1327,15 @@ func (r *verifC15Run) quiesce() {
 			return
 		}
 		spins++
+		// The registry's event loop and the expiry watcher compute
+		// their next tick as TickAfter(t - Now()); with a TestClock a
+		// SetTime that lands between the two calls leaves the tick
+		// registered too far in the future (a test-clock artefact, a real
+		// clock would merely tick late). Any loop iteration re-arms it
+		// correctly, so nudge both loops with an unrelated invoice.
+		if spins%40 == 25 {
+			r.kick()
+		}
 		if time.Now().After(deadline) {
 			if strings.HasPrefix(pending, "hodl delivery") {
 				r.vc.Diag("terminal_record_without_resolution", fmt.Sprintf("store=%s %s", r.store, pending))
@@ -1346,6 +1359,35 @@ func (r *verifC15Run) quiesce() {
 		} else {
 			time.Sleep(2 * time.Millisecond)
 		}
+	}
+}
+
+var verifC15KickSeq atomic.Uint64
+
+// kick makes the registry's event loop and the expiry watcher run one more
+// iteration by adding an unrelated, never-paid invoice.
+func (r *verifC15Run) kick() {
+	var pre lntypes.Preimage
+	binary.BigEndian.PutUint64(pre[:8], verifC15KickSeq.Add(1))
+	copy(pre[8:], "verif-c15-kick")
+	var addr [32]byte
+	copy(addr[:], pre[:])
+	addr[31] = 0xaa
+	inv := &invpkg.Invoice{
+		CreationDate: r.clk.Now(),
+		Terms: invpkg.ContractTerm{
+			FinalCltvDelta:  40,
+			Expiry:          24 * time.Hour,
+			Value:           1,
+			PaymentAddr:     addr,
+			PaymentPreimage: &pre,
+			Features:        verifC15Features("req"),
+		},
+	}
+	_, err := r.reg.AddInvoice(context.Background(), inv, pre.Hash())
+	r.vc.Count("sync_kicks", 1)
+	if err != nil {
+		r.vc.Diag("kick_error", err.Error())
 	}
 }
 
@@ -1473,8 +1515,12 @@ func (r *verifC15Run) checkBatches() {
 					r.vc.Diag("keysend_settled_without_required_addr",
 						fmt.Sprintf("store=%s invoice=%s htlc=%d", r.store, g.ref.id, id))
 				default:
-					r.violation("settle_rule", "payment-address/"+h.Style+"/"+h.AddrKind,
-						fmt.Sprintf("invoice %s requires its payment address, settled htlc %d carried %s address; set: %s", t.describe, id, h.AddrKind, desc()))
+					ak := h.AddrKind
+					if !has {
+						ak = "none"
+					}
+					r.violation("settle_rule", "payment-address/"+h.Style+"/"+ak,
+						fmt.Sprintf("invoice %s requires its payment address, settled htlc %d carried %s address; set: %s", t.describe, id, ak, desc()))
 				}
 			} else if a, has := h.carriedAddr(); has && a != t.addr {
 				r.vc.Diag("settled_with_wrong_optional_addr", fmt.Sprintf("store=%s invoice=%s htlc=%d", r.store, g.ref.id, id))
